@@ -152,6 +152,27 @@ let () =
              done;
              out "O" "ok" "ok"
            end
+         | "X", k :: c0 :: c1 :: o0 :: o1 :: n :: bytes ->
+           (match slot k with
+            | Some (m, s) when c0 > 0 && c1 > 0 && o0 >= 0 && o1 >= 0 && List.length bytes = n && m.m_store = StChunk ->
+              let b = List.map z_of_int bytes in
+              let (a0, a1, b0, b1) = (nat_of_int c0, nat_of_int c1, nat_of_int o0, nat_of_int o1) in
+              let sstr = if sdead.(k) then "nodomain" else
+                  (match s_writechunk s a0 a1 b0 b1 b with
+                   | Some s' -> ss.(k) <- Some s'; "ok" | None -> sdead.(k) <- true; "nodomain") in
+              let mstr = (match m_writechunk m a0 a1 b0 b1 b with
+                  | Some m' -> ms.(k) <- Some m'; "ok" | None -> "fail") in
+              out "X" mstr sstr
+            | _ -> out "X" "fail" "fail")
+         | "Y", [k; c0; c1; o0; o1; _] ->
+           (match slot k with
+            | Some (m, s) when c0 > 0 && c1 > 0 && o0 >= 0 && o1 >= 0 && m.m_store = StChunk ->
+              let (a0, a1, b0, b1) = (nat_of_int c0, nat_of_int c1, nat_of_int o0, nat_of_int o1) in
+              let f = function Some b -> "ok" ^ bytes_str b | None -> "fail" in
+              let sstr = if sdead.(k) then "nodomain" else
+                  (match s_readchunk s a0 a1 b0 b1 with Some b -> "ok" ^ bytes_str b | None -> "nodomain") in
+              out "Y" (f (m_readchunk m a0 a1 b0 b1)) sstr
+            | _ -> out "Y" "fail" "fail")
          | "U", n :: bytes when List.length bytes = n ->
            let (dec, enc) = u_case (List.map z_of_int bytes) in
            out "U" ("ok" ^ bytes_str dec ^ " |" ^ bytes_str enc) ("ok" ^ bytes_str (List.map z_of_int bytes))
